@@ -76,6 +76,7 @@ def run(ctx, rep):
                pushed(lambda x: x.startswith('len(a1.continuous_page_headers')),
                'the main-page length and the page count are pushed into the Poseidon header', fn.loc(), cfg)
         dynamic_tables(db, rep)
+        no_lossy_casts(db, rep, fn)
     rep.note('configs', ctx.stone_configs())
 
 
@@ -131,3 +132,29 @@ def dynamic_tables(db, rep):
            f'From<Vec<usize>> reads index i into field i for all {len(fields)} fields; mismatches: {bad[:4]}', fv.loc(), cfg)
     lits = [H.lit_int(n) for n in H.walk(fv.hir['value']) if n[0] == 'lit' and H.lit_int(n) is not None]
     rep.ob('C13.dynamic', 'from_vec/length-assert', len(fields) in lits, f'length assertion constant present: {len(fields) in lits}', fv.loc(), cfg)
+
+
+WIDTH = {'u8': 8, 'u16': 16, 'u32': 32, 'u64': 64, 'u128': 128, 'usize': 64, 'i8': 8, 'i16': 16, 'i32': 32, 'i64': 64, 'i128': 128, 'isize': 64}
+
+
+def no_lossy_casts(db, rep, fn):
+    """every value entering the digest keeps all its bits: no narrowing / sign-changing integer cast in get_hash, its
+    closures or the DynamicParams flattening"""
+    scope = [fn.path] + db.closures_of(fn.path) + [p for p in db.fns if 'From<swiftness_air::dynamic::DynamicParams> for alloc::vec::Vec<usize>' in p]
+    bad = []
+    n = 0
+    for p in scope:
+        f = db.fns.get(p)
+        if f is None or not f.has_mir:
+            continue
+        for b in f.blocks:
+            if b.get('cleanup'):
+                continue
+            for s in b['stmts']:
+                if s['k'] == 'assign' and s['rv']['k'] == 'cast' and s['rv']['ck'].split('(')[0] in ('IntToInt', 'FloatToInt'):
+                    n += 1
+                    a, t = s['rv']['from'], s['rv']['to']
+                    if s['rv']['ck'].startswith('FloatToInt') or (a in WIDTH and t in WIDTH and (WIDTH[t] < WIDTH[a] or (a[0] != t[0] and not (a[0] == 'u' and WIDTH[t] > WIDTH[a])))):
+                        bad.append((p.split('::')[-1], f'{a}->{t}', s['line']))
+    rep.ob('C13.width', 'no-narrowing-cast', not bad,
+           f'{n} integer casts in the digest computation; lossy ones: {bad} (a truncated field no longer binds its high bits)', fn.loc(), db.config)
